@@ -1,6 +1,22 @@
-"""Per-property translation recipes: every module c??.py in this package registers its kernels."""
+"""Per-property translation recipes: every module c??.py in this package registers its kernels.
+
+A recipe module that fails to import (a builder's half-finished edit of ANOTHER property) must not take the checks of
+the other properties down: failures are collected in IMPORT_ERRORS and re-raised only by `load(prop)` for the property
+whose own recipe is broken."""
 import importlib
 import pathlib
+import traceback
+
+IMPORT_ERRORS: dict[str, str] = {}
 
 for _p in sorted(pathlib.Path(__file__).parent.glob("c[0-9][0-9].py")):
-    importlib.import_module(f"{__name__}.{_p.stem}")
+    try:
+        importlib.import_module(f"{__name__}.{_p.stem}")
+    except Exception:  # noqa: BLE001
+        IMPORT_ERRORS[_p.stem.upper()] = traceback.format_exc()
+
+
+def load(prop: str):
+    """Make sure the recipe of `prop` is registered; raise its import error if it has one."""
+    if prop.upper() in IMPORT_ERRORS:
+        raise ImportError(f"translation recipe of {prop} does not import:\n{IMPORT_ERRORS[prop.upper()]}")
